@@ -34,6 +34,23 @@ def run(ctx):
         ctx.evaluations += 1
         ctx.distinct.add(("close", c["state"], c["cancel"], c["dir"], c["returned"]))
     ctx.extra["transport_close_cases"] = n
+    # overlap scenarios of GsTPair.tla on the REAL adapter: CleanupChannel / CloseChannel issued while an incoming-request hook of the same
+    # channel is inside the manager's handler (which re-enters the transport as transport configurers do): releasing / closing must return
+    import importlib
+    c16 = importlib.import_module("props.c16")
+    npair, nover, pverd, pobs = c16.pairs_stage(ctx, b)
+    ctx.extra["pair_scenarios"] = {"run": npair, "overlapped": nover}
+    for o in pobs.values():
+        if o["x"]["a"]["op"] in ("Cleanup", "Close"):
+            ctx.traces += 1
+            ctx.evaluations += 1
+            ctx.distinct.add(("pair", o["x"]["a"]["op"], o["reenter"], o["stuck"]))
+    for v in pverd:
+        if v["rule"] == "C20.everyCallReturns" and v["op"] in ("Cleanup", "Close"):
+            o = pobs[v["case"]]
+            ctx.violation({"rule": "C09.releaseReturns", "pair": "InReq||" + v["op"], "reenter": v["reenter"]},
+                          "C09.releaseReturns violated: Transport.%sChannel issued while an incoming-request hook of the channel is in its handler (re-entry %s) never returned (%s): "
+                          "the channel's resources are not released and it cannot settle (case %s)" % (v["op"], v["reenter"], o["stuck"], v["case"]), detail=c16.pair_detail(v, o))
     # recorded executions of the repository's own tests (hook lines: send / sent / notify / the cleanup handler's REAL CleanupChannel and
     # Unprotect calls) validated as behaviours of Chan.tla by the trace specification ChanTrace.tla, C09_ExactlyOnce / NeverWithout on every state
     if ctx.quick():
